@@ -53,14 +53,14 @@ def plan(tier):
                        % (fn, k, count, "true" if tr else "false"))
             p.add(MOD, H(fn, {"frame": "array", "declared_count": count, "elements_received": k, "element": "_ CRLF (3 bytes)",
                               "trailing": "%d symbolic byte of a following frame" % tr}, "array_elems"))
-    for d in ((6, 12) if tier == "quick" else (6, 12, 19, 20)):
+    for d in ((6, 12) if tier == "quick" else (6, 9, 12, 14)):
         for kind, call in (("array", "array_huge_count"), ("bulk", "bulk_huge_count")):
             fn = "c21_%s_count_%ddigits" % (kind, d)
             gen.append("vk_proof! {\n" + ATTR % (d + 5) + STUBS + "#[kani::stub(std::alloc::alloc, vk_alloc)]\n"
                        + "fn %s() { %s::<%d>(); }\n}\n" % (fn, call, d))
             p.add(MOD, H(fn, {"frame": "%s header only" % kind, "count": "%d symbolic decimal digits (first may be a sign)" % d}, "huge_count"))
     # boundary counts: i64::MAX = 9223372036854775807, u64::MAX = 18446744073709551615
-    for kind, ty in ((("bulk", 36), ("array", 42)) if tier != "quick" else ()):
+    for kind, ty in ():  # (boundary counts around i64::MAX / u64::MAX: no verdict in 25 min, not scheduled)
         for bname, prefix in (("i64", "92233720368547758"), ("u64", "184467440737095516")):
             fn = "c21_%s_count_boundary_%s" % (kind, bname)
             gen.append("vk_proof! {\n" + ATTR % 30 + STUBS + "#[kani::stub(std::alloc::alloc, vk_alloc)]\n"
@@ -90,8 +90,9 @@ def plan(tier):
                "byte, with and without CRLF; bulk: <= 2 header bytes (any bytes: signs, digits, garbage) + <= %d arbitrary bytes "
                "after the header; arrays: <= 2 header bytes x <= %d element slots of symbolic type; array and bulk headers of 6..%d "
                "decimal digits (optionally signed) with nothing after them; nesting limit + 1" % (maxn, 4 if tier == "quick" else 5,
-                                                                              2 if tier == "quick" else 3, 12 if tier == "quick" else 20))
-    p.not_covered = ("longer frames; inline commands (quick tier: the tokenizer over symbolic characters does not finish in the budget); "
+                                                                              2 if tier == "quick" else 3, 12 if tier == "quick" else 14))
+    p.not_covered = ("declared counts of 15 or more digits (19 symbolic digits: no verdict in 25 min — the i64/usize overflow region of the "
+                     "length parse is therefore NOT covered); longer frames; inline commands (quick tier: the tokenizer over symbolic characters does not finish in the budget); "
                      "arrays whose elements are not simple strings, nested arrays with symbolic content; real stack exhaustion")
     p.per_harness_timeout = 900 if tier == 'quick' else 1500
     p.total_timeout = 2700 if tier == 'quick' else 7000
